@@ -105,9 +105,9 @@ func entryOf(kind byte) string {
 
 // checkTraversal is C07's oracle for one (input, strategy vector): strategy[i]==1 means "exact
 // offset" at call i, else decline.
-func checkTraversal(kind byte, w []byte, choose func(n int) int) (bad, exp, got string) {
+func checkTraversal(kind byte, w []byte, buf *rjson.Buffer, choose func(n int) int) (bad, exp, got string) {
 	ms, end, ok, isNull := ref.Members(w, kind)
-	calls, p, err := traverse(kind, w, nil, func(i int, data []byte) answer { return answer{mode: choose(2)} })
+	calls, p, err := traverse(kind, w, buf, func(i int, data []byte) answer { return answer{mode: choose(2)} })
 	if isNull {
 		if err != nil || p != end || len(calls) != 0 {
 			return "null", fmt.Sprintf("p=%d nil, 0 calls", end), fmt.Sprintf("p=%d %s, %d calls", p, errStr(err), len(calls))
@@ -185,12 +185,21 @@ func handlerProps(r *eng.Run, id string) {
 			switch id {
 			case "C07":
 				st := eng.ExploreChoices(func(c *eng.Chooser) {
-					bad, exp, got := checkTraversal(kind, w, c.Choose)
+					bad, exp, got := checkTraversal(kind, w, nil, c.Choose)
 					if bad != "" {
 						r.Violation(eng.Replay{Engine: "handler", Entry: entryOf(kind), Sig: bad + "/" + shortSig(w), InputB64: append([]byte(nil), w...), Choices: append([]int(nil), c.Trace...), Expected: exp, Got: got, Extra: map[string]interface{}{"kind": string(kind)}})
 					}
 				}, 6, 2)
 				execs += st.Executions
+				// the two uniform strategies again with a reused Buffer that earlier grew beyond
+				// the depth limit (the handler machines have no depth limit of their own)
+				for _, mode := range []int{0, 1} {
+					mode := mode
+					if bad, exp, got := checkTraversal(kind, w, giantBuffer(), func(int) int { return mode }); bad != "" {
+						r.Violation(eng.Replay{Engine: "handler", Entry: entryOf(kind), Sig: "giant-buffer/" + bad + "/" + shortSig(w), InputB64: append([]byte(nil), w...), Choices: []int{mode, mode, mode, mode, mode, mode, mode, mode}, Expected: exp, Got: got, Extra: map[string]interface{}{"kind": string(kind), "buffer": "giant"}})
+					}
+					execs++
+				}
 				if st.Complete {
 					complete++
 				} else {
@@ -269,7 +278,15 @@ func replayHandler(id string, rp *eng.Replay) (bool, string) {
 	case "C07":
 		var bad, exp, got string
 		pan := guard(func() {
-			eng.ReplayChoices(func(c *eng.Chooser) { bad, exp, got = checkTraversal(kind, w, c.Choose) }, rp.Choices)
+			if b, _ := rp.Extra["buffer"].(string); b == "giant" {
+				mode := 0
+				if len(rp.Choices) > 0 {
+					mode = rp.Choices[0]
+				}
+				bad, exp, got = checkTraversal(kind, w, giantBuffer(), func(int) int { return mode })
+				return
+			}
+			eng.ReplayChoices(func(c *eng.Chooser) { bad, exp, got = checkTraversal(kind, w, nil, c.Choose) }, rp.Choices)
 		})
 		if pan != "" {
 			return true, "panic: " + pan
